@@ -101,6 +101,13 @@ class PyModule(object):
                     continue
                 for field in ('body', 'orelse', 'finalbody', 'handlers'):
                     todo.extend(getattr(n, field, []) or [])
+            if found is None and isinstance(node, (ast.FunctionDef, ast.AsyncFunctionDef)):
+                # a private nested helper may have been renamed: if the enclosing function has exactly one
+                # nested definition, that is the one meant
+                nested = [n for n in ast.walk(node) if isinstance(n, (ast.FunctionDef, ast.AsyncFunctionDef)) and n is not node
+                          and getattr(n, '_parent', None) is not None and enclosing_function(n) is node]
+                if len(nested) == 1:
+                    found = nested[0]
             if found is None:
                 if required:
                     raise AnalysisError('%s: definition %r not found' % (self.rel, qualname))
